@@ -36,6 +36,17 @@ EXTRA = {   # additional checks expected to notice a mutant
     'C18-init-overwrites-metadata': ['C05'],
     'C08-remove-committed-any-txn': ['C06'],
     'C05-setdefault-no-readback': ['C12'],
+    'C01-shared-pickle-buffer': ['C05'],
+    'C02-peekitem-raw-key-undecoded': ['C12'],
+    'C04-get-retry-by-rowid-no-expiry': ['C05', 'C12'],
+    'C15-removes-survive-rollback-rlock': ['C06'],
+    'C19-writes-list-not-reset-on-commit': ['C06'],
+    'C18-iter-single-cursor': ['C05'],
+    'C14-timeout-clears-txn-owner': ['C06'],
+    'C15-txn-owner-cleared-after-rollback': ['C06'],
+    'C20-fanout-transact-depth-shared': ['C06'],
+    'C13-reset-reload-first-shard-only': ['C18'],
+    'C17-fanout-check-swallows-timeout': ['C14'],
     'C06-remove-before-commit': ['C07', 'C12'],
     'C07-timeout-leaves-txn': ['C06', 'C14'],
     'C08-removes-survive-rollback': ['C06'],
@@ -65,9 +76,14 @@ def one(sid, tier):
         for p in props:
             env = dict(os.environ, VERIF_REPO=wt, VERIF_OUT=out,
                        VERIF_PROCS='4', PYTHONHASHSEED='0')
-            r = subprocess.run([os.path.join(VERIF, 'check'), p, tier],
-                               env=env, capture_output=True, text=True,
-                               timeout=7200)
+            try:
+                r = subprocess.run([os.path.join(VERIF, 'check'), p, tier],
+                                   env=env, capture_output=True, text=True,
+                                   timeout=1500, start_new_session=True)
+            except subprocess.TimeoutExpired:
+                res[p] = {'exit': 124, 'violation_lines': 0,
+                          'first': 'check did not finish in 1500 s'}
+                continue
             lines = [l for l in r.stdout.splitlines()
                      if l.startswith('VIOLATION')]
             first = ''
